@@ -42,15 +42,16 @@ pub fn generate(run_seed: u64, corpus: &Corpus, sw: &Swarm, i: u64, exhaustive: 
     if i < exhaustive {
         // first the context x follower cases, then the token strings, then the character strings
         // first every regular input family at a size where its repeated thing is counted past 2^16
-        let nf = crate::scale::FAMILIES.len() as u64;
+        let nf = (crate::scale::FAMILIES.len() + crate::gen::COUNT_KINDS.len()) as u64;
         let i = match crate::batch::spread(i, nf) {
             Ok(k) => {
-                return Case {
-                    prop: "C10".into(),
-                    gen: "X-family-mega".into(),
-                    text: crate::scale::render(crate::scale::FAMILIES[k as usize], 700_000),
-                    ..Case::default()
-                }
+                let k = k as usize;
+                let text = if k < crate::scale::FAMILIES.len() {
+                    crate::scale::render(crate::scale::FAMILIES[k], 700_000)
+                } else {
+                    crate::gen::count_doc(crate::gen::COUNT_KINDS[k - crate::scale::FAMILIES.len()], 66_000)
+                };
+                return Case { prop: "C10".into(), gen: "X-family-mega".into(), text, ..Case::default() };
             }
             Err(j) => j,
         };
